@@ -92,15 +92,22 @@ def max_splice_run(src):
 
 
 def max_open_quote_run(src):
-    """longest stretch after a single quote without another single quote or a newline"""
+    """largest number of characters the lexer has to read after a single quote before it meets the closing
+    quote or an unescaped newline (line splices do not end a character literal, an escape counts once)"""
+    from nv.oracle import normalise
+    t = normalise(src)
     best = 0
-    i = src.find("'")
+    i = t.find("'")
+    n = len(t)
     while i != -1:
         j = i + 1
-        while j < len(src) and src[j] not in "'\n":
-            j += 1
-        best = max(best, j - i - 1)
-        i = src.find("'", j + 1 if j < len(src) and src[j] == "'" else j)
-        if i == -1:
-            break
+        count = 0
+        while j < n and t[j] != "'" and t[j] != "\n":
+            if t[j] == "\\" and j + 1 < n and t[j + 1] != "\n":
+                j += 2
+            else:
+                j += 1
+            count += 1
+        best = max(best, count)
+        i = t.find("'", j + 1) if j < n else -1
     return best
